@@ -246,6 +246,23 @@ CHECKS["C03"] = dict(
     technique="Coq proof (nat/Q + nsatz-free algebra; Reals/Coquelicot for the closed form) + generated connectivity and limits + vm_compute correspondence + convergence runs",
     design="4/C03")
 
+CHECKS["C11"] = dict(
+    text="Theorems (MathComp matrices over any field, all sizes): eliminating the free dofs of the linearised system "
+         "A u + B d = f leaves reactions r(d) = C u + D d - g that are affine in the imposed d with slope the Schur complement "
+         "D - C A^-1 B, so e^T (D - C A^-1 B) e -- the number calculate_axial_from_fea returns, and calculate_axial_from_stress "
+         "with m = 1 -- is exactly the difference quotient of the summed reaction; it is positive whenever the system's energy "
+         "is; the eliminated u is the unique equilibrium.  Over Q, with the formulas regenerated from structural.py on every "
+         "run: the generalised-plane-strain stiffness contracts the whole tangent row with the condensed strain (diagonal terms "
+         "suffice only without shear coupling; refuted otherwise), weights and height as in the model, and force/stiffness are "
+         "recomputed after every converged solve.  Tied to the code by central difference quotients of the axial force from "
+         "trial solves out of the same state, against the returned stiffness: all 20 shipped deformation variants and "
+         "synthetic elastic tubes, 1D/2D/3D, pressure on/off, two-step histories, three displacement levels per step.",
+    note="partial: that the nonlinear finite-element force has the condensed tangent as its derivative (consistent NEML "
+         "tangents, converged Newton state) is checked by difference quotients at 2e-3 relative accuracy, not proved.  Known "
+         "finding: steps cut into sub-increments of an inelastic material report the last sub-increment's tangent.",
+    technique="Coq/MathComp proof (Schur complement, positivity) + generated formulas + difference-quotient runs on the implementation",
+    design="4/C11")
+
 NOT_YET = {}
 
 def main():
